@@ -270,7 +270,7 @@ def run(ctx):
     ctx.leg = "trace"
     for need in ("lockGaugesThatPaid", "clPositions", "locks", "pools", "factoryDenoms", "epoch:day",
                  "anteFailures", "feesPaidInFeeToken", "outOfGasInMessages", "failedPoolCreations", "failedThenSucceededPoolIds",
-                 "opsOnFailedThenSucceededPools", "poolCreationFeeChangedByGovernance", "authenticatorsAdded", "authenticatorsRemoved"):
+                 "opsOnFailedThenSucceededPools", "poolCreationFeeChangedByGovernance", "authenticatorsAdded", "authenticatorsRemoved", "factoryForceTransfers", "factoryAdminsChanged"):
         if stats.get(need, 0) == 0:
             raise Infra("workloads never reached '%s': the determinism check would be vacuous there" % need)
     for need in ("ante_failures", "multi_message_reverted_txs", "restarts", "txs_naming_pool_id_of_reverted_creation"):
